@@ -41,8 +41,10 @@ RULE = ("Deterministic enumeration (partitioned over workers) of (start,count,st
         "every request against the element offsets an independent decoder derives from the header. Non-trivial = a batch (one "
         "script) containing a tuple on a boundary (start==len, start+count==len+1, last strided index==len) or an accepted write "
         "touching the first/last element of the variable's slab, i.e. bytes adjacent to another variable's data; distinct = "
-        "distinct case hash. `evaluations` counts tested requests (tuples).")
-ASSUMPTIONS = ["single process (MPI singleton), local POSIX file system, ROMIO as MPI-IO layer; data written through MPI-IO is visible "
+        "distinct case hash. `evaluations` counts tested requests (tuples).  Peer part: blocking collective put/get (var1/vara/vars/varm) on a "
+        "fixed-size variable by 2-3 ranks where rank 0 carries a valid request and the other ranks tuples from the boundary domain: "
+        "return code per rank by the predicate, and only elements of accepted requests may change in the file.")
+ASSUMPTIONS = ["enumeration and random part: single process (MPI singleton); peer part: 2-3 ranks, fixed-size variables only (a rejected rank in a collective put on a record variable is known finding F07 of C08); local POSIX file system, ROMIO as MPI-IO layer; data written through MPI-IO is visible "
                "to a POSIX copy of the file made by the same process right after the call returned",
                "no-fill mode (the default); bytes beyond the old end of file that a growing write does not address must read as zero "
                "only when ROMIO data sieving is disabled (romio_ds_write=disable, 3 of 4 batches): with sieving ROMIO itself stores arbitrary "
@@ -980,7 +982,152 @@ def case_requests(case, stats=None):
     return base, reqs
 
 
+
+# ====================================================================== peer part: collective calls on 2-3 ranks
+# One rank carries a valid write, another rank a tuple from the same boundary domain (valid or not) in the SAME
+# collective call on a fixed-size variable.  Return code per rank by the reference predicate; byte diff of the file:
+# only the elements of accepted requests may change.  (Record variables are left to C08: known finding F07.)
+@st.composite
+def peer_case(draw, tier="quick"):
+    nd = draw(st.sampled_from([1, 1, 2]))
+    lens = [draw(st.integers(2, 4)) for _ in range(nd)]
+    k = draw(st.sampled_from([2, 2, 3]))
+    form = draw(st.sampled_from(["var1", "vara", "vars", "varm"]))
+    api = draw(st.sampled_from(["put", "put", "put", "get"]))
+    reqs = []
+    for r in range(k):
+        if r == 0:
+            s, c, sd = draw(G.box(lens, allow_zero=False, stride=form in ("vars", "varm")))
+        else:
+            s = [draw(st.integers(-1, L + 1)) for L in lens]
+            c = [draw(st.integers(-1, L + 1)) for L in lens]
+            sd = [draw(st.sampled_from([1, 1, 1, 2, 0, -1, L + 1])) for L in lens]
+        rq = {"start": list(s)}
+        if form != "var1":
+            rq["count"] = list(c)
+        if form in ("vars", "varm"):
+            rq["stride"] = list(sd)
+        reqs.append(rq)
+    return {"kind": "peer", "fmt": draw(st.sampled_from([1, 2, 5])), "k": k, "lens": lens, "form": form, "api": api,
+            "strict": draw(st.sampled_from([0, 1])), "safe": 0, "reqs": reqs}
+
+
+def _peer_elems(lens, form, rq):
+    """index tuples (C order) addressed by an accepted request"""
+    nd = len(lens)
+    start = rq["start"]
+    count = rq.get("count") if form != "var1" else [1] * nd
+    stride = rq.get("stride") if form in ("vars", "varm") else None
+    return M.box_indices(start, count, stride)
+
+
+def peer_build(case):
+    k, lens, form, api = case["k"], case["lens"], case["form"], case["api"]
+    s = Script(k=k)
+    s.op("env", **{"e__PNETCDF_RELAX_COORD_BOUND": hx("0" if case["strict"] else "1"), "e__PNETCDF_SAFE_MODE": hx("0")})
+    s.op("create", step=True, f="f0", path=hx("t.nc"), mode=FMT_MODE[case["fmt"]])
+    s.op("def_dim", step=True, f="f0", name=hx("e"), len=3)
+    for i, L in enumerate(lens):
+        s.op("def_dim", step=True, f="f0", name=hx("x%d" % i), len=L)
+    s.op("def_var", step=True, f="f0", name=hx("fa"), xt=M.NC_BYTE, dims=[0], ndims=1)
+    s.op("def_var", step=True, f="f0", name=hx("t"), xt=M.NC_INT, dims=list(range(1, len(lens) + 1)), ndims=len(lens))
+    s.op("def_var", step=True, f="f0", name=hx("fb"), xt=M.NC_SHORT, dims=[0], ndims=1)
+    s.op("enddef", step=True, f="f0")
+    n = int(np.prod(lens))
+    # pattern A everywhere (rank 0 writes, the others take part with zero-length requests)
+    for v, cnt, mt, raw in ((0, [3], "schar", b"\x41" * 3), (1, list(lens), "int", np.full(n, 0x41414141, dtype=np.int32).tobytes()), (2, [3], "short", b"\x42" * 6)):
+        sn = s.same_n()
+        for r in range(k):
+            b = "b%d" % (10 * v + r + 1)
+            s.op("buf", ranks=[r], b=b, size=max(1, len(raw)), hex=raw)
+            s.op("data", ranks=[r], sn=sn, step=True, api="put", form="vara", coll=1, mt=mt, f="f0", v=v, buf=b,
+                 start=[0] * len(cnt), count=cnt if r == 0 else [0] * len(cnt))
+    s.op("fence", step=True, f="f0")
+    s.op("snapshot", path=hx("t.nc"), to="pre")
+    sn = s.same_n()
+    for r in range(k):
+        rq = case["reqs"][r]
+        b = "b%d" % (50 + r)
+        raw = np.full(n + 8, 0x10101010 * (r + 2) // 1 & 0x7fffffff, dtype=np.int32).tobytes()
+        s.op("buf", ranks=[r], b=b, size=len(raw), hex=raw)
+        kw = {"start": rq["start"]}
+        if form != "var1":
+            kw["count"] = rq["count"]
+        if form in ("vars", "varm"):
+            kw["stride"] = rq["stride"]
+        if form == "varm":
+            kw["imap"] = M.canonical_imap([max(c, 1) for c in rq["count"]])
+        s.op("data", ranks=[r], sn=sn, step=True, api=api, form=form, coll=1, mt="int", f="f0", v=1, buf=b, rb=0, **kw)
+    s.op("fence", step=True, f="f0")
+    s.op("snapshot", path=hx("t.nc"), to="post")
+    s.op("close", step=True, f="f0")
+    return s, sn
+
+
+def peer_run_case(ctx, case):
+    k, lens, form, api = case["k"], case["lens"], case["form"], case["api"]
+    s, sn = peer_build(case)
+    pool = ctx.pool("asan", nprocs=4)
+    res, d = pool.run(s, keepdir=True)
+    probs = []
+    try:
+        pre = open(os.path.join(d, "pre"), "rb").read()
+        post = open(os.path.join(d, "post"), "rb").read()
+    finally:
+        shutil.rmtree(d, ignore_errors=True)
+    may_change = set()
+    must_hold = {}
+    f = cdfspec.decode(pre)
+    tv = f.vars[1]
+    st_ = [int(np.prod(lens[i + 1:])) for i in range(len(lens))]
+    rejected_some = False
+    for r in range(k):
+        rq = case["reqs"][r]
+        v = AC.check_box(list(lens), False, api == "get", bool(case["strict"]), form, rq["start"], rq.get("count"), rq.get("stride"), case["fmt"])
+        rc = res.rc(sn, r)
+        ctx.stats["peer_pred_rc_" + "|".join(str(c) for c in sorted(v.allowed, reverse=True))] += 1
+        if rc not in v.allowed:
+            probs.append(_peerprob(case, "rc", "rank %d of a collective %s_%s_all on %d ranks: request %s returned %s, allowed %s (%s)" % (
+                r, api, form, k, rq, rc, sorted(v.allowed), v.why), r))
+        if v.rejected:
+            rejected_some = True
+        if api == "put" and not v.rejected and rc == 0 and v.nelems > 0:
+            val = 0x10101010 * (r + 2) & 0x7fffffff
+            for ix in _peer_elems(lens, form, rq).tolist():
+                off = tv.begin + 4 * sum(a * b for a, b in zip(ix, st_))
+                for j in range(4):
+                    may_change.add(off + j)
+                must_hold.setdefault(off, set()).add(val)
+    if len(pre) != len(post):
+        probs.append(_peerprob(case, "size", "the file size changed from %d to %d" % (len(pre), len(post)), -1))
+    else:
+        a, b = np.frombuffer(pre, dtype=np.uint8), np.frombuffer(post, dtype=np.uint8)
+        diff = np.nonzero(a != b)[0].tolist()
+        bad = [o for o in diff if o not in may_change]
+        if bad:
+            probs.append(_peerprob(case, "spill", "collective %s_%s_all on %d ranks (requests %s): %d bytes outside the elements of the accepted requests changed, first at offset %d (variable t spans %d..%d)" % (
+                api, form, k, case["reqs"], len(bad), bad[0], tv.begin, tv.begin + 4 * int(np.prod(lens)) - 1), -1))
+        for off, vals in must_hold.items():
+            got = int.from_bytes(post[off:off + 4], "big")
+            if got not in vals:
+                probs.append(_peerprob(case, "lost", "element at offset %d of an accepted request holds %#x, expected one of %s" % (off, got, [hex(x) for x in sorted(vals)]), -1))
+                break
+    ctx.stats["peer_cases"] += 1
+    ctx.stats["peer_%s_%s" % (api, form)] += 1
+    ctx.stats["peer_k%d" % k] += 1
+    if rejected_some:
+        ctx.stats["peer_with_rejected_rank"] += 1
+        ctx.nontrivial(runner.case_hash(case))
+    return probs
+
+
+def _peerprob(case, kind, msg, rank):
+    return {"kind": "peer_" + kind, "msg": msg, "sig": {"kind": "peer_" + kind, "api": case["api"], "form": case["form"]}}
+
+
 def run_case(ctx, case):
+    if case.get("kind") == "peer":
+        return peer_run_case(ctx, case)
     stats = collections.Counter()
     base, reqs = case_requests(case, stats)
     label = "rand" if case.get("kind") == "rand" else "enum"
@@ -1016,6 +1163,8 @@ def run_case(ctx, case):
 
 
 def case_script(case):
+    if case.get("kind") == "peer":
+        return peer_build(case)[0].text("<dir>")[0]
     base, reqs = case_requests(case)
     return build(base, reqs).s.text("<dir>")[0]
 
@@ -1105,6 +1254,7 @@ def campaign(ctx):
     n = {"quick": 250, "thorough": 6500}[ctx.tier]
 
     runner.run_hypothesis(ctx, rand_case(ctx.tier), run, n, label="rand")
+    runner.run_hypothesis(ctx, peer_case(ctx.tier), run, {"quick": 400, "thorough": 5000}[ctx.tier], label="peer")
 
 
 def coverage_extra(stats, tier):
